@@ -173,4 +173,48 @@ theorem sim_run (I : Interp Rat) (m : List (Sym × Sym)) (ss : List Stmt) :
     simp only [List.map_cons, run_cons]
     exact ih _ _ (fun s' hs' => hok s' (List.mem_cons_of_mem _ hs')) (sim_step I m s (hok s (by simp)) ρ₁ ρ h)
 
+/-! ### `findLastAssign` on a list split at the last assignment -/
+
+theorem go_append (p : Sym) : ∀ (a b : List Stmt) (i : Nat) (acc : Option Nat),
+    findLastAssign.go p (a ++ b) i acc = findLastAssign.go p b (i + a.length) (findLastAssign.go p a i acc) := by
+  intro a
+  induction a with
+  | nil => intro b i acc; simp [findLastAssign.go]
+  | cons s t ih =>
+    intro b i acc
+    cases s with
+    | assign x e =>
+      simp only [List.cons_append, findLastAssign.go, List.length_cons]
+      rw [ih]; congr 1; omega
+    | ode am r =>
+      simp only [List.cons_append, findLastAssign.go, List.length_cons]
+      rw [ih]; congr 1; omega
+
+theorem go_no_assign (p : Sym) : ∀ (b : List Stmt) (i : Nat) (acc : Option Nat),
+    (∀ s ∈ b, p ∉ s.defs) → findLastAssign.go p b i acc = acc := by
+  intro b
+  induction b with
+  | nil => intro i acc _; simp [findLastAssign.go]
+  | cons s t ih =>
+    intro i acc h
+    have ht := ih (i + 1)
+    cases s with
+    | assign x e =>
+      have hx : x ≠ p := by
+        have := h (.assign x e) (by simp)
+        simpa [Stmt.defs, eq_comm] using this
+      simp only [findLastAssign.go, hx, if_false]
+      exact ht acc (fun s hs => h s (List.mem_cons_of_mem _ hs))
+    | ode am r =>
+      simp only [findLastAssign.go]
+      exact ht acc (fun s hs => h s (List.mem_cons_of_mem _ hs))
+
+/-- every list with a last assignment of `p` has this shape, and `find_assignment_index` finds exactly that one -/
+theorem findLastAssign_split (p : Sym) (pre post : List Stmt) (e : Expr) (hpost : ∀ s ∈ post, p ∉ s.defs) :
+    findLastAssign (pre ++ .assign p e :: post) p = some pre.length := by
+  unfold findLastAssign
+  rw [go_append]
+  simp only [findLastAssign.go, if_true, Nat.zero_add]
+  exact go_no_assign p post _ _ hpost
+
 end Pharmpy.C09
